@@ -276,6 +276,14 @@ def gen_plan(rng, base: Base, n: int, *, stable=True, malform=None, feature_bias
         objs.append(o)
         if isinstance(p, Obj):
             p.children.setdefault(attr, []).append(o)
+    # often: a component with functions to allocate (promises inside lists)
+    if rng.random() < 0.45:
+        for typ, battr in (("C", "components"), ("F", "functions"), ("F", "functions")):
+            par = rng.choice([bases[typ]] + [o for o in objs if o.typ == typ])
+            o = Obj(len(objs), fresh_name(len(objs)), typ, par, battr)
+            objs.append(o)
+            if isinstance(par, Obj):
+                par.children.setdefault(battr, []).append(o)
     plan.objs = objs
     by_type = lambda t: [o for o in objs if o.typ == t]
     # 2. references
@@ -939,6 +947,43 @@ def run(chk: lib.Check):
         base = bases["empty52"]
         plan = gen_plan(rng, base, rng.choice([4, 6, 8]), stable=False)
         one_document(plan, base, 3 if quick else 5, 8 if quick else 40)
+
+    # the nested-sync stream (oracle only: the model's sync entries have no nested sync).  A sync entry that
+    # creates its object from find + set with a promise-valued set and carries a nested sync.
+    def nested_sync_doc(base, k):
+        from capellambse import decl as D
+        nm = lambda s_: f"ns{k}{s_}"
+        i_user = {"parent": D.UUIDReference(base.key["PK"]),
+                  "sync": {"classes": [{"find": {"name": nm("K")}, "set": {"super": D.Promise("pS")},
+                                        "sync": {"owned_properties": [{"find": {"name": nm("prop")}}]}}]}}
+        i_decl = {"parent": D.UUIDReference(base.key["PK"]),
+                  "extend": {"packages": [{"name": nm("G"), "classes": [{"name": nm("S"), "promise_id": "pS"}]}]}}
+        return [i_user, i_decl]
+    import copy
+    import yaml as _yaml
+    from capellambse import decl as _decl
+    for k, tag in enumerate(bases):
+        base = bases[tag]
+        canon = []
+        for perm in ([0, 1], [1, 0]):
+            doc = nested_sync_doc(base, k)
+            text = _yaml.dump([copy.deepcopy(doc[i]) for i in perm], Dumper=_decl.YDMDumper, sort_keys=False)
+            model = base.load()
+            try:
+                _decl.apply(model, io.StringIO(text))
+                canon.append((canon_tree(model, base.ids), text))
+            except BaseException as e:  # noqa: BLE001
+                canon.append((f"ERR {type(e).__name__}", text))
+            stats["runs"] += 1
+            chk.note_case(("nested-sync", tag, tuple(perm)))
+        if canon[0][0] != canon[1][0]:
+            ndup = [c[0].count(f"'ns{k}K'") for c in canon]
+            key = "sync-deferred-create:duplicate-object" if (not canon[0][0].startswith("ERR") and not canon[1][0].startswith("ERR")
+                                                                   and ndup[0] != ndup[1]) else f"nested-sync:differs:{tag}"
+            chk.violation(key, "a sync entry with a promise-valued 'set' and a nested 'sync' gives different models for the two orders "
+                               f"of its instructions (occurrences of the class name in the tree: {ndup})",
+                          {"model": tag, "yaml": canon[0][1], "other_yaml": canon[1][1]})
+    feat_count["nested-sync-gadget"] = len(bases)
 
     chk.coverage["documents"] = stats
     chk.coverage["instructions_per_document"] = {str(k): v for k, v in sorted(size_hist.items())}
